@@ -23,7 +23,7 @@ def _err(rec: Dict[str, Any], err: BaseException, jp_base) -> None:
         rec["strok"] = False
 
 
-class _Timeout(Exception):
+class _Timeout(BaseException):     # not an Exception: neither the code under test nor a harness `except Exception` may swallow the guard
     pass
 
 
@@ -45,6 +45,9 @@ def with_timeout(seconds: float, fn, *args, **kw):
         signal.signal(signal.SIGALRM, old)
 
 
+_GUARD_HITS = [0]
+
+
 def _guarded(fn, *args, **kw):
     """Call fn under a 30 s wall-clock guard when possible (main thread only); a call that does not come back is
     reported as a TimeoutError, which no JSONPathError is."""
@@ -52,9 +55,11 @@ def _guarded(fn, *args, **kw):
 
     if threading.current_thread() is not threading.main_thread():
         return fn(*args, **kw)
-    timed_out, res = with_timeout(30.0, fn, *args, **kw)
+    # after five calls that did not come back the guard shortens: a check on a tree that loops stays bounded
+    timed_out, res = with_timeout(30.0 if _GUARD_HITS[0] < 5 else 2.0, fn, *args, **kw)
     if timed_out:
-        raise TimeoutError("the call did not return within 30 s")
+        _GUARD_HITS[0] += 1
+        raise TimeoutError("the call did not return within the time limit")
     return res
 
 
